@@ -10,4 +10,9 @@ func New(spec *Spec) (t *Tracer, err error)
 
 func (t *Tracer) Close() (err error)
   trusted
+
+iface (s Span) NewChild(name string) (c Span)
+  trusted
+  pure
+  ensures c != nil
 @*/
